@@ -369,8 +369,8 @@ def gen_net_cases(ctx):
                              fpat=rng.choice(FPATS), desc="multi distinct names"))
     # 5. several clients using the SAME directory name while connected (F-C16-DIR)
     same = []
-    a = [("N", b"d"), ("M", b"a", B(lit=b"\x01")), ("M", b"a", B(lit=b"\x02")), ("E",)]
-    b = [("N", b"d"), ("M", b"b", B(lit=b"\x09")), ("E",)]
+    a = [("N", b"d"), ("WB", 7, B(lit=b"\x01")), ("WB", 7, B(lit=b"\x02")), ("E",)]
+    b = [("N", b"d"), ("WB", 9, B(lit=b"\x09")), ("E",)]
     same.append(NetCase([("-", a), ("-", b)], order=[0, 0, 1, 0, 1, 0, 1], desc="same name, minimal"))
     for i in range(6 if not thorough else 200):
         nm = rng.choice([b"uftrace.data", b"d"])
@@ -383,7 +383,7 @@ def gen_net_cases(ctx):
         same.append(NetCase(cl, order=order, desc="same name, random"))
     # a connected client's directory is the NAME.old that another client's create_directory removes
     a = [("N", b"c1"), ("M", b"a", B(lit=b"\x01")), ("E",)]
-    b = [("N", b"c1.old"), ("M", b"b", B(lit=b"\x02")), ("M", b"b", B(lit=b"\x03")), ("E",)]
+    b = [("N", b"c1.old"), ("WB", 5, B(lit=b"\x02")), ("WB", 5, B(lit=b"\x03")), ("E",)]
     c3 = [("N", b"c1"), ("M", b"c", B(lit=b"\x04")), ("E",)]
     same.append(NetCase([("-", a), ("-", b), ("-", c3)], order=[0, 0, 0, 1, 1, 2, 1, 2, 1, 2],
                         desc="same name, NAME.old in use"))
